@@ -13,8 +13,9 @@ CONSTANTS
   AllowWindow = TRUE
   StartStates = {"empty", "data"}
   OtherAtStart = {FALSE}
+  MaxForce = 0
   OnlyOnce = FALSE
 SPECIFICATION Spec
 INVARIANTS TypeOK NoLocalLoss ReadyMeansLoaded ReadyMeansPublished ExitOnlyWhenDone
-PROPERTIES CommittedOnlyAfterStore LSNeverBackwards NoEchoUpload NoUploadBeforeOwnMerged BucketMonotone ReadyStable
+PROPERTIES CommittedOnlyAfterStore LSNeverBackwards NoEchoUpload NoUploadBeforeOwnMerged BucketMonotone ReadyStable ForcedWhenDue
 CHECK_DEADLOCK FALSE
